@@ -16,17 +16,26 @@ EXTENDS Election, Sequences
 Rng(s) == {s[i] : i \in 1..Len(s)}
 
 (***************************************************************************)
-(* Artefacts (names are strings):                                          *)
-(*  stats   : [genes : Seq, clusters : set, leaves : set (taxonomy)]       *)
-(*  refm    : [genes : Seq, pairs : set of <<a, b>>, stats_path_ok : BOOL] *)
+(* Artefacts (names are strings; leaves are also numbered 1..nl by the     *)
+(* observer, in an order of its own):                                      *)
+(*  stats   : [genes : Seq, clusters : set of names addressed by the       *)
+(*             cluster-to-row table, leaves : set of leaf names of the     *)
+(*             taxonomy the reference was labelled with]                   *)
+(*  refm    : [genes : Seq, pairs : Seq of <<i, j>> (i < j, leaf numbers), *)
+(*             idx : Seq of the column numbers given to the pairs,         *)
+(*             back : BOOLEAN (names the statistics file it came from)]    *)
 (*  lookup  : [keys : set of parent keys, genes : set]                     *)
-(*  mapping : [parents : set, used : set of genes, levels : Seq]           *)
+(*  mapping : [used : set of genes, levels : Seq]                          *)
 (***************************************************************************)
 StatsOK(st) == st.clusters = st.leaves /\ \A i, j \in 1..Len(st.genes) : i # j => st.genes[i] # st.genes[j]
-RefMarkersOK(st, rm) ==
+AllPairs(nl) == {p \in (1..nl) \X (1..nl) : p[1] < p[2]}
+RefMarkersOK(st, rm, nl) ==
     /\ rm.genes = st.genes                                   \* same genes, same order
-    /\ rm.stats_path_ok                                      \* points back to the statistics file
-    /\ rm.pairs = {p \in st.leaves \X st.leaves : p[1] < p[2]}   \* every unordered leaf pair once
+    /\ rm.back                                               \* points back to the statistics file
+    /\ Rng(rm.pairs) = AllPairs(nl)                          \* every unordered leaf pair ...
+    /\ Len(rm.pairs) = Cardinality(AllPairs(nl))             \* ... exactly once
+    /\ Len(rm.idx) = Len(rm.pairs)
+    /\ Rng(rm.idx) = 0..(Len(rm.pairs) - 1)                  \* each with a column of its own
 LookupOK(rm, lk, parents, qgenes) ==
     /\ lk.keys = parents                                     \* one entry per parent of the taxonomy
     /\ lk.genes \subseteq (Rng(rm.genes) \cap qgenes)        \* only genes known to both files
@@ -34,29 +43,48 @@ MappingOK(lk, mp, hier) ==
     /\ mp.used \subseteq lk.genes                            \* markers used were selected
     /\ mp.levels = hier
 
-PipelineErr(st, rm, lk, mp, parents, qgenes, hier) ==
+PipelineErr(st, rm, lk, mp, nl, parents, qgenes, hier) ==
     IF ~StatsOK(st) THEN 1801
-    ELSE IF ~RefMarkersOK(st, rm) THEN 1802
+    ELSE IF ~RefMarkersOK(st, rm, nl) THEN 1802
     ELSE IF ~LookupOK(rm, lk, parents, qgenes) THEN 1803
     ELSE IF ~MappingOK(lk, mp, hier) THEN 1804
     ELSE 0
 
 (***************************************************************************)
-(* Centroid lemma for one node visit.  q : the cell's vector on the genes  *)
-(* of the node (integer sums of its own leaf: correlation is scale         *)
-(* invariant); own : its leaf; M : [leaf -> vector] of the leaves below    *)
-(* the node; draws : Seq of sets of positions; child(l) the child that     *)
-(* holds leaf l; out = [a, k, one] reported winner, votes, and whether the *)
-(* reported correlation is 1 within 1e-9.                                  *)
+(* Centroid claim for one query cell that equals the mean profile of leaf  *)
+(* `own`.  visits : sequence (top-down) of the nodes with a choice on the  *)
+(* path from the root to own, each                                         *)
+(*   [q     : the cell's vector on the genes of the node (integer sums of  *)
+(*            its own leaf: correlation is scale invariant),               *)
+(*    M     : [leaf -> vector] of ALL leaves below the node, own included, *)
+(*    draws : Seq of sets of positions (the logged bootstrap subsets),     *)
+(*    child : the child of the node that holds own,                        *)
+(*    out   : [a, k, one] reported winner, votes, and whether the reported *)
+(*            average correlation is 1 within 1e-9]                        *)
+(* path / assigned : expected and reported node per level of the taxonomy. *)
+(* The claim covers a node only if the premise held at every node above    *)
+(* it (otherwise the cell may legitimately have left the lineage).         *)
 (***************************************************************************)
-Premise(q, own, M, draws) ==
-    \A d \in 1..Len(draws) :
-        /\ Var(q, draws[d]) > 0
-        /\ \A b \in (DOMAIN M) \ {own} : ~CorrIsOne(q, M[b], draws[d])
-CentroidErr(q, own, M, draws, childOfOwn, B, out) ==
-    IF ~Premise(q, own, M, draws) THEN 0                   \* outside the claim
-    ELSE IF ~(out.a = childOfOwn) THEN 1810                \* not assigned to its own lineage
-    ELSE IF ~(out.k = B) THEN 1811                         \* bootstrapping probability below 1
-    ELSE IF ~out.one THEN 1812                             \* average correlation not 1
+Premise(v, own) ==
+    \A d \in 1..Len(v.draws) :
+        /\ Var(v.q, v.draws[d]) > 0
+        /\ \A b \in (DOMAIN v.M) \ {own} : ~CorrIsOne(v.q, v.M[b], v.draws[d])
+
+\* the lemma in terms of the election of Election.tla: under the premise the own leaf is the
+\* unique nearest centroid on every draw (checked exhaustively for small vectors by Pipeline_MC)
+LemmaAt(q, M, own, S) ==
+    (Var(q, S) > 0 /\ \A b \in (DOMAIN M) \ {own} : ~CorrIsOne(q, M[b], S)) => Best(q, M, S) = {own}
+
+Claimed(visits, own) == {i \in 1..Len(visits) : \A j \in 1..i : Premise(visits[j], own)}
+VisitErr(v, B) ==
+    IF ~(v.out.a = v.child) THEN 1810                \* not assigned to its own lineage
+    ELSE IF ~(v.out.k = B) THEN 1811                 \* bootstrapping probability below 1
+    ELSE IF ~v.out.one THEN 1812                     \* average correlation not 1
     ELSE 0
+CellErr(visits, own, B, path, assigned) ==
+    LET cl == Claimed(visits, own)
+        bad == {i \in cl : VisitErr(visits[i], B) # 0}
+    IN  IF bad # {} THEN VisitErr(visits[CHOOSE i \in bad : \A j \in bad : i <= j], B)
+        ELSE IF cl = 1..Len(visits) /\ assigned # path THEN 1813    \* some level (e.g. an only child) off the lineage
+        ELSE 0
 =============================================================================
